@@ -102,6 +102,18 @@ static void gen_history(Rng &r, Plan &p, int mode, bool c04) {
   } else if (mode == 8) {  // bounce injection trouble: a fault inside the qmail-queue that qmail-send runs
     Fault f; f.actor = "qmail-queue"; f.call = r.pick(std::vector<CallId>{C_WRITE, C_FSYNC, C_LINK, C_OPEN, C_READ}); f.nth = (int)r.range(1, 12); f.kind = "error"; f.err = EIO;
     p.faults.push_back(f);
+  } else if (mode == 9) {  // one failing call of the daemon on a named kind of queue file, early in that file's use (rare paths: pqadd, getinfo, markdone, addbounce, injectbounce, job_close)
+    Fault f; f.actor = "qmail-send"; f.path = r.pick(std::vector<std::string>{"/bounce/", "/info/", "/local/", "/remote/", "/mess/", "/todo/"});
+    f.call = r.pick(std::vector<CallId>{C_STAT, C_OPEN, C_READ, C_WRITE, C_FSYNC, C_UNLINK, C_UTIMES});
+    f.nth = (int)r.range(1, 4); f.kind = "error"; f.err = r.pick(std::vector<int>{EIO, ENOMEM, ENFILE, EACCES});
+    if (r.chance(0.5)) {   // the startup scan (pqstart/pqadd) only sees messages that exist at boot: stop, restart, and fault the second daemon
+      nap(); p.ops.push(Json::obj().set("op", "shutdown").set("max_s", 200000)); p.ops.push(Json::obj().set("op", "boot"));
+      f.actor = "qmail-send#2"; if (r.chance(0.7)) { f.call = C_STAT; f.path = r.pick(std::vector<std::string>{"/info/", "/local/", "/remote/", "/remote/", "/todo/"}); }
+      // keep recipients unfinished across the restart: a first attempt that is deferred
+      for (auto &op : p.ops.a) if (op.gets("op") == "script" && r.chance(0.7)) { Json &at = op.at("attempts"); Json z = Json::obj(); z.set("v", "Z").set("text", "deferred").set("lat", (long long)r.below(5)); at.a.insert(at.a.begin(), z); }
+    }
+    p.faults.push_back(f);
+    if (r.chance(0.3)) { Fault g = f; g.nth += (int)r.range(1, 3); p.faults.push_back(g); }
   }
   int64_t horizon = lifetime + 400000;
   p.ops.push(Json::obj().set("op", "settle").set("max_s", (long long)horizon));
@@ -112,13 +124,13 @@ static void gen_history(Rng &r, Plan &p, int mode, bool c04) {
   p.knobs.set("max_sim_s", (long long)(horizon * 6 + 1000000));
 }
 
-static const char *kModeNames[] = {"fault-free", "term-restart", "process-crash", "machine-crash-kept", "machine-crash-lossy", "io-error", "alloc-fail", "spawner-death", "bounce-injection-fault"};
+static const char *kModeNames[] = {"fault-free", "term-restart", "process-crash", "machine-crash-kept", "machine-crash-lossy", "io-error", "alloc-fail", "spawner-death", "bounce-injection-fault", "queue-file-io-error"};
 
 static bool gen_c03(uint64_t seed, const std::string &tier, uint64_t i, Plan &p) {
   (void)tier;
   p = Plan(); p.property = "C03"; p.world = "Q"; p.seed = mix64(mix64(seed, 0xC03), i);
   Rng r(p.seed);
-  static const int modes[] = {0, 0, 0, 1, 2, 2, 3, 4, 4, 5, 5, 6, 7, 8, 8, 0};
+  static const int modes[] = {0, 0, 9, 1, 2, 2, 3, 4, 4, 5, 9, 6, 7, 8, 9, 0};
   int mode = modes[i % 16];
   base_knobs(r, p, false);
   gen_history(r, p, mode, false);
@@ -131,7 +143,7 @@ static bool gen_c04(uint64_t seed, const std::string &tier, uint64_t i, Plan &p)
   (void)tier;
   p = Plan(); p.property = "C04"; p.world = "Q"; p.seed = mix64(mix64(seed, 0xC04), i);
   Rng r(p.seed);
-  static const int modes[] = {0, 0, 1, 1, 2, 3, 4, 0, 7, 1, 2, 3};
+  static const int modes[] = {0, 9, 1, 5, 2, 3, 4, 9, 7, 9, 2, 3};
   int mode = modes[i % 12];
   base_knobs(r, p, false);
   gen_history(r, p, mode, true);
@@ -151,13 +163,13 @@ std::vector<std::string> q_assume() {
 static RegisterProperty reg_c03(PropertyDef{
     "C03", "Q", "exploration", "deterministic simulation: seeded schedules/faults over real qmail-send+qmail-clean+qmail-queue, ghost-state oracle per recipient", gen_c03,
     "plan i = f(VERIF_SEED, i): 1-4 messages x 1-4 unique local/remote recipients, per-attempt outcome scripts (K/Z/D/garbled/empty, latencies), signals, and one disturbance class per plan "
-    "(none, TERM+restart, daemon kill, machine crash with writes kept, machine crash losing unsynced data, one failing syscall, allocation failure, spawner death, fault inside bounce injection); "
+    "(none, TERM+restart, daemon kill, machine crash with writes kept, machine crash losing unsynced data, one failing syscall, one failing syscall on a named kind of queue file (bounce/info/local/remote/mess/todo), allocation failure, spawner death, fault inside bounce injection); "
     "a run is non-trivial if at least one delivery command reached a spawner; distinct = distinct (choice stream, trace) hashes among non-trivial runs",
     q_real(), q_stubs(), q_assume(), "hash over messages of (phase, #pending, #done, accepted) at end of run", 1500, 60000});
 
 static RegisterProperty reg_c04(PropertyDef{
     "C04", "Q", "exploration", "deterministic simulation: same histories as C03 with concurrency settings 0-5 and announced spawner limits; ghost of outstanding attempts and completion marks", gen_c04,
-    "plan i = f(VERIF_SEED, i): C03 histories with concurrencylocal/remote in 0..5 and spawner limits 0..5,255; disturbances restricted to those C04 quantifies over (signals, TERM+restart, daemon kill, machine crashes, spawner death); "
+    "plan i = f(VERIF_SEED, i): C03 histories with concurrencylocal/remote in 0..5 and spawner limits 0..5,255; disturbances: signals, TERM+restart, daemon kill, machine crashes, spawner death, and single failing system calls of the daemon (under which only the in-flight and concurrency clauses are judged, since a failed completion mark legitimately causes a retry); "
     "non-trivial = at least one delivery command; distinct = distinct (choice stream, trace) hashes among non-trivial runs",
     q_real(), q_stubs(), q_assume(), "hash over messages of (phase, #pending, #done, accepted) at end of run", 1500, 60000});
 
